@@ -176,6 +176,7 @@ func (w *World) deliver(p *core.Pending) {
 		w.mu.Lock()
 		ar.p.inCall = true
 		ar.p.callStart = w.step
+		ar.p.callStartSeq = w.commitSeq
 		ar.p.curAtCallStart = ar.p.curNum
 		w.mu.Unlock()
 		w.logf("step %s", ar.p.key)
@@ -250,6 +251,7 @@ func (w *World) deliverBurst(pend []*core.Pending) {
 			w.mu.Lock()
 			ar.p.inCall = true
 			ar.p.callStart = w.step
+			ar.p.callStartSeq = w.commitSeq
 			ar.p.curAtCallStart = ar.p.curNum
 			w.mu.Unlock()
 			w.logf("step %s", ar.p.key)
